@@ -414,7 +414,7 @@ def correspondence(ctx):
 if __name__ == "__main__":
     common.run_check(
         "C09", module="Bermuda.Properties.C09", driver_targets=["drv_c09"],
-        correspondence=correspondence, level="translation_validation",
+        correspondence=correspondence, level="proof",
         rule="case i has focus field SUMMARIZE_DEFAULTS[i mod N] (every registered name is a focus; N read from the code) "
              "plus 0-4 other registered names; 1-4 slices whose metadata differ in any subset of country/"
              "reinsurance_basis/loss_definition/per_occurrence_limit/details/loss_details (changed, added, removed "
